@@ -266,19 +266,30 @@ def itemPrice (cur : String) (c : Nat) (rates : List XRate) (it : Item) (price :
 
 /-! ## line discounts and charges -/
 
+/-- the percentage part shared by `calculateLineDiscounts` and `calculateLineCharges` -/
+def adjPct (r : Rule) (c : Nat) (sum : Amount) (d : LineAdj) : LineAdj :=
+  match d.percent with
+  | some p =>
+    if pctIsZero p then d else
+    match d.base with
+    | some b =>
+      let b' := up b c
+      { d with base := some b', amount := pctOf o p (applyRule o r c (up b' (c + E))) }
+    | none => { d with amount := pctOf o p sum }
+  | none => d
+
+/-- charges also support a rate and quantity, which override the percentage -/
+def adjRate (qty : Amount) (d : LineAdj) : LineAdj :=
+  match d.rate with
+  | some rt => { d with amount := o.mul rt (d.quantity.getD qty) }
+  | none => d
+
+/-- `cd.RescaleUp(d.Amount)` -/
+def adjUp (c : Nat) (d : LineAdj) : LineAdj := { d with amount := up d.amount c }
+
 /-- one step of `calculateLineDiscounts`: the updated row and the new running total -/
 def lineDiscountStep (r : Rule) (c : Nat) (sum : Amount) (total : Amount) (d : LineAdj) : LineAdj × Amount :=
-  let d1 : LineAdj :=
-    match d.percent with
-    | some p =>
-      if pctIsZero p then d else
-      match d.base with
-      | some b =>
-        let b' := up b c
-        { d with base := some b', amount := pctOf o p (applyRule o r c (up b' (c + E))) }
-      | none => { d with amount := pctOf o p sum }
-    | none => d
-  let d2 := { d1 with amount := up d1.amount c }
+  let d2 := adjUp c (adjPct o r c sum d)
   (d2, sub o total d2.amount)
 
 def lineDiscounts (r : Rule) (c : Nat) (sum : Amount) : List LineAdj → Amount → List LineAdj × Amount
@@ -289,21 +300,7 @@ def lineDiscounts (r : Rule) (c : Nat) (sum : Amount) : List LineAdj → Amount 
     (d' :: ds', t'')
 
 def lineChargeStep (r : Rule) (c : Nat) (qty sum : Amount) (total : Amount) (d : LineAdj) : LineAdj × Amount :=
-  let d1 : LineAdj :=
-    match d.percent with
-    | some p =>
-      if pctIsZero p then d else
-      match d.base with
-      | some b =>
-        let b' := up b c
-        { d with base := some b', amount := pctOf o p (applyRule o r c (up b' (c + E))) }
-      | none => { d with amount := pctOf o p sum }
-    | none => d
-  let d2 : LineAdj :=
-    match d1.rate with
-    | some rt => { d1 with amount := o.mul rt (d1.quantity.getD qty) }
-    | none => d1
-  let d3 := { d2 with amount := up d2.amount c }
+  let d3 := adjUp c (adjRate o qty (adjPct o r c sum d))
   (d3, add o total d3.amount)
 
 def lineCharges (r : Rule) (c : Nat) (qty sum : Amount) : List LineAdj → Amount → List LineAdj × Amount
@@ -581,7 +578,7 @@ def roundLine (l : Line) : Line :=
 
 /-- `Discount.round` / `Charge.round` -/
 def roundDocAdj (c : Nat) (d : DocAdj) : DocAdj :=
-  let e := match d.base with | some b => b.exp | none => c
+  let e := match d.base with | some b => if b.exp > c then b.exp else c | none => c
   { d with amount := down o d.amount e }
 
 /-- `Totals.round` -/
@@ -594,51 +591,81 @@ def roundTotals (c : Nat) (t : Totals) : Totals :=
 
 /-! ## the whole calculation (`bill.calculate`) -/
 
-def calculate (d : Doc) : Except CalcErr Out :=
-  let c := d.c
-  let r := d.rule
-  match calcLines o d.cur c d.rates r d.lines with
+/-- everything `calculate` knows before the tax summary is built -/
+structure Pre where
+  lines : List Line
+  sum : Amount
+  discounts : List DocAdj
+  charges : List DocAdj
+  dsum : Option Amount
+  csum : Option Amount
+  total2 : Amount              -- sum − discounts + charges
+  rows : List Row
+deriving Repr, Inhabited
+
+def taxRows (lines : List Line) (discounts charges : List DocAdj) : List Row :=
+  (lines.filterMap (fun l => l.total.map (fun t => ({ total := t, taxes := l.taxes } : Row))))
+  ++ discounts.map (fun x => { total := neg x.amount, taxes := x.taxes })
+  ++ charges.map (fun x => { total := x.amount, taxes := x.taxes })
+
+def pre (d : Doc) : Except CalcErr Pre :=
+  match calcLines o d.cur d.c d.rates d.rule d.lines with
   | .error e => .error e
   | .ok lines =>
-    let sum := lineSum o c lines
-    let discounts := d.discounts.map (docAdj o r c sum)
-    let charges := d.charges.map (docAdj o r c sum)
-    let dsum := adjSum o c discounts
-    let csum := adjSum o c charges
+    let sum := lineSum o d.c lines
+    let discounts := d.discounts.map (docAdj o d.rule d.c sum)
+    let charges := d.charges.map (docAdj o d.rule d.c sum)
+    let dsum := adjSum o d.c discounts
+    let csum := adjSum o d.c charges
     let total1 := match dsum with | some x => sub o sum x | none => sum
     let total2 := match csum with | some x => add o total1 x | none => total1
-    let rows : List Row :=
-      (lines.filterMap (fun l => l.total.map (fun t => ({ total := t, taxes := l.taxes } : Row))))
-      ++ discounts.map (fun x => { total := neg x.amount, taxes := x.taxes })
-      ++ charges.map (fun x => { total := x.amount, taxes := x.taxes })
-    if rows.isEmpty then
-      .ok { lines := lines, discounts := discounts, charges := charges,
+    .ok { lines, sum, discounts, charges, dsum, csum, total2, rows := taxRows lines discounts charges }
+
+/-- `tax_included`: the unrounded amount of the included category -/
+def taxIncluded (includes : Option String) (tx : TaxTotal) : Option Amount :=
+  match includes with
+  | none => none
+  | some k => (tx.cats.find? (fun ct => ct.code == k)).map CatTotal.preciseAmount
+
+/-- `totalAdvance` (before the stored amounts are rounded) -/
+def advanceTotal (c : Nat) (advs : List Advance) : Option Amount :=
+  if advs.isEmpty then none else some ((advs.map (·.amount)).foldl (accum o) ⟨0, c⟩)
+
+/-- the totals before presentation rounding -/
+def rawTotals (d : Doc) (p : Pre) (tx : TaxTotal) : Totals :=
+  let ti := taxIncluded d.includes tx
+  let total3 := match ti with | some x => sub o p.total2 x | none => p.total2
+  let tax := tx.precise
+  let twt := add o total3 tax
+  let payable := match d.rounding with | some x => add o twt x | none => twt
+  let advTotal : Option Amount :=
+    if d.hasPayment then advanceTotal o d.c (d.advances.map (calcAdvance o d.c twt)) else none
+  { sum := p.sum, discount := p.dsum, charge := p.csum, taxIncluded := ti, total := total3,
+    taxes := if tx.cats.isEmpty then none else some tx, tax := tax, totalWithTax := twt,
+    rounding := d.rounding, payable := payable, advances := advTotal,
+    due := advTotal.map (fun x => sub o payable x) }
+
+def finish (d : Doc) (p : Pre) (tx : TaxTotal) : Out :=
+  let t := rawTotals o d p tx
+  let advs := if d.hasPayment then
+      (d.advances.map (calcAdvance o d.c t.totalWithTax)).map (fun a => { a with amount := o.rescale a.amount d.c })
+    else d.advances
+  let dues := if d.hasPayment then d.dues.map (calcDue o d.c t.payable) else d.dues
+  { lines := p.lines.map (roundLine o), discounts := p.discounts.map (roundDocAdj o d.c),
+    charges := p.charges.map (roundDocAdj o d.c), advances := advs, dues := dues,
+    totals := some (roundTotals o d.c t) }
+
+def calculate (d : Doc) : Except CalcErr Out :=
+  match pre o d with
+  | .error e => .error e
+  | .ok p =>
+    if p.rows.isEmpty then
+      .ok { lines := p.lines, discounts := p.discounts, charges := p.charges,
             advances := d.advances, dues := d.dues, totals := none }
     else
-    match taxTotal o r c d.includes rows with
+    match taxTotal o d.rule d.c d.includes p.rows with
     | .error e => .error e
-    | .ok tx =>
-      let ti : Option Amount :=
-        match d.includes with
-        | none => none
-        | some k => (tx.cats.find? (fun ct => ct.code == k)).map CatTotal.preciseAmount
-      let total3 := match ti with | some x => sub o total2 x | none => total2
-      let tax := tx.precise
-      let twt := add o total3 tax
-      let payable := match d.rounding with | some x => add o twt x | none => twt
-      let advs := if d.hasPayment then d.advances.map (calcAdvance o c twt) else d.advances
-      let advTotal : Option Amount :=
-        if d.hasPayment && !advs.isEmpty then some ((advs.map (·.amount)).foldl (accum o) ⟨0, c⟩) else none
-      let advs' := if d.hasPayment then advs.map (fun a => { a with amount := o.rescale a.amount c }) else advs
-      let due := advTotal.map (fun x => sub o payable x)
-      let dues := if d.hasPayment then d.dues.map (calcDue o c payable) else d.dues
-      let t : Totals :=
-        { sum := sum, discount := dsum, charge := csum, taxIncluded := ti, total := total3,
-          taxes := if tx.cats.isEmpty then none else some tx, tax := tax, totalWithTax := twt,
-          rounding := d.rounding, payable := payable, advances := advTotal, due := due }
-      .ok { lines := lines.map (roundLine o), discounts := discounts.map (roundDocAdj o c),
-            charges := charges.map (roundDocAdj o c), advances := advs', dues := dues,
-            totals := some (roundTotals o c t) }
+    | .ok tx => .ok (finish o d p tx)
 
 end
 
